@@ -234,6 +234,41 @@ def check(run, repo):
                           'zero:%s->%s' % (a, b),
                           'converting the number zero does not give zero (got %r): conversion is not '
                           'proportional to its argument' % (z,), m, m.functions['convert_unit'])
+    # the number zero is a number like any other: temperature scales keep their offsets, foreign types stay refused
+    for a, b in (('C', 'K'), ('K', 'C'), ('C', 'F'), ('F', 'R'), ('K', 'K')):
+        if a in type_dict and b in type_dict:
+            z = call(I, m, 'convert_unit', num=C(0), initial=a, final=b)
+            rx = temp_maps.get((a, b))
+            wz = None
+            if isinstance(rx, Rat):
+                wz = rx - x * I.D.d(rx, 'x')           # the affine map at 0
+            run.check(isinstance(z, Rat) and isinstance(wz, Rat) and z.eq(wz), 'SHAPE.temp', 'constants.convert_unit',
+                      'zero:%s->%s' % (a, b), 'converting 0 %s gives %r, the map for other numbers gives %r at 0'
+                      % (a, z, wz), m, m.functions['convert_unit'])
+    for a, b in (('J', 'm'), ('C', 'J'), ('s', 'K')):
+        if a in type_dict and b in type_dict:
+            z = call(I, m, 'convert_unit', num=C(0), initial=a, final=b)
+            run.check(isinstance(z, Raised) and z.exc == 'ValueError', 'ORDER.refuse', 'constants.convert_unit',
+                      'zero:%s->%s' % (a, b), 'conversion of the number zero between quantity types is not refused '
+                      '(got %r)' % (z,), m, m.functions['convert_unit'])
+    # an array argument: converted element by element, the caller's array left as it was
+    for a, b in (('J', 'kcal'), ('C', 'K'), ('kPa', 'atm')):
+        if a in type_dict and b in type_dict:
+            arr = ListV([I.D.sym('x0'), I.D.sym('x1'), I.D.sym('x2')])
+            arr.is_array = True
+            arr.dtype = 'float'
+            before = list(arr.items)
+            I.order.ranks.update({'x0': 1, 'x1': 1, 'x2': 1})
+            ra = call(I, m, 'convert_unit', num=arr, initial=a, final=b)
+            each = [call(I, m, 'convert_unit', num=v_, initial=a, final=b) for v_ in before]
+            ok = isinstance(ra, ListV) and len(ra) == 3 and all(isinstance(p_, Rat) and isinstance(q_, Rat) and p_.eq(q_)
+                                                                for p_, q_ in zip(ra.items, each))
+            run.check(ok, 'SHAPE.convert', 'constants.convert_unit', 'array:%s->%s' % (a, b),
+                      'an array is not converted element by element (got %r)' % (ra,), m, m.functions['convert_unit'])
+            run.check(all(p_ is q_ or (isinstance(p_, Rat) and p_.eq(q_)) for p_, q_ in zip(arr.items, before)) and
+                      len(arr.items) == 3, 'EFFECT.argument', 'constants.convert_unit', 'array:%s->%s' % (a, b),
+                      'the array handed in is modified by the conversion (now %r)' % (arr,), m,
+                      m.functions['convert_unit'])
     # num omitted -> factor only
     r = call(I, m, 'convert_unit', initial='J', final='kJ')
     run.check(isinstance(r, Rat) and r.eq(I.D.sym('unit_dict[kJ]') / I.D.sym('unit_dict[J]')),
@@ -608,6 +643,36 @@ def helpers(run, repo, I, m, values):
                           'want': float(want.v), 'rel_dev': float(dev), 'tol': float(tol)})
 
 
+def later_updates(m, tname, node):
+    """(key node, value node) pairs that module-level statements put into the table after its literal
+    (``table.update({...})``, ``table[key] = value``), in execution order; anything else that touches the table at
+    module level is outside what is folded"""
+    out = []
+    after = False
+    for st in m.tree.body:
+        if isinstance(st, ast.Assign) and st.value is node:
+            after = True
+            continue
+        if not after:
+            continue
+        if isinstance(st, ast.Expr) and isinstance(st.value, ast.Call) and isinstance(st.value.func, ast.Attribute) \
+                and isinstance(st.value.func.value, ast.Name) and st.value.func.value.id == tname:
+            if st.value.func.attr == 'update' and len(st.value.args) == 1 and isinstance(st.value.args[0], ast.Dict) \
+                    and not st.value.keywords:
+                out.extend(zip(st.value.args[0].keys, st.value.args[0].values))
+                continue
+            raise Unsupported('module-level %s.%s(...) after the table literal' % (tname, st.value.func.attr), st,
+                              m.relpath)
+        if isinstance(st, ast.Assign) and len(st.targets) == 1 and isinstance(st.targets[0], ast.Subscript) and \
+                isinstance(st.targets[0].value, ast.Name) and st.targets[0].value.id == tname:
+            out.append((st.targets[0].slice, st.value))
+            continue
+        if isinstance(st, (ast.AugAssign, ast.Delete, ast.For, ast.While, ast.If, ast.With, ast.Try)) and \
+                any(isinstance(x, ast.Name) and x.id == tname for x in ast.walk(st)):
+            raise Unsupported('module-level statement modifies the table %s' % tname, st, m.relpath)
+    return out
+
+
 def elements(run, repo, m):
     for tname, floor in (('atomic_weight', 117), ('S_elements', 92)):
         node = m.assigns.get(tname, [None])[-1]
@@ -624,6 +689,9 @@ def elements(run, repo, m):
             if kk in tab:
                 dup.append(kk)
             tab[kk] = fold_num(m, v)
+        # entries written after the literal replace what the literal says
+        for k, v in later_updates(m, tname, node):
+            tab[fold_value(m, k)] = fold_num(m, v)
         run.check(not dup, 'TABLE.dupkey', 'constants.%s' % tname, 'dup:%s' % dup,
                   'duplicate keys %s' % dup, m, node)
         nums = sorted(k for k in tab if isinstance(k, int))
@@ -664,6 +732,7 @@ def elements(run, repo, m):
     n1, n2, n3 = I.D.sym('n1'), I.D.sym('n2'), I.D.sym('n3')
     node = m.assigns['atomic_weight'][-1]
     tab = {fold_value(m, k): fold_num(m, v).v for k, v in zip(node.keys, node.values)}
+    tab.update({fold_value(m, k): fold_num(m, v).v for k, v in later_updates(m, 'atomic_weight', node)})
     for comp in (('C', 'H', 'O'), ('Pt', 'Cl', 'N'), (6, 1, 8)):
         if not all(k in tab for k in comp):
             continue
@@ -686,6 +755,17 @@ def elements(run, repo, m):
         r1 = I.call_function(pm, fn, ['CH3OH'], {}, name='pmutt.get_molecular_weight')
         run.check(isinstance(r1, Rat) and r1.eq(want), 'REF.molweight', 'pmutt.get_molecular_weight', 'formula string',
                   'molar mass of the formula CH3OH is %s, not C + 4 H + O' % show_(r1), pm, fn)
+        # counts of two and three digits, a repeated symbol, a two-letter symbol
+        if 'Pt' in tab:
+            for formula, cnt in (('C10H22', {'C': 10, 'H': 22}), ('Pt100H205C10', {'Pt': 100, 'H': 205, 'C': 10}),
+                                 ('CH3CH2OH', {'C': 2, 'H': 6, 'O': 1})):
+                rr = I.call_function(pm, fn, [formula], {}, name='pmutt.get_molecular_weight')
+                ww = C(0)
+                for el_, k_ in cnt.items():
+                    ww = ww + C(tab[el_]) * k_
+                run.check(isinstance(rr, Rat) and rr.eq(ww), 'REF.molweight', 'pmutt.get_molecular_weight',
+                          'formula string ' + formula, 'molar mass of the formula %s is %s, not the count-weighted sum %s'
+                          % (formula, show_(rr), show_(ww)), pm, fn)
         comp = I.call_function(pm, pf, ['CH3OH'], {}, name='pmutt.parse_formula')
         if isinstance(comp, DictV) and comp.d:
             k0 = list(comp.d)[0]
@@ -718,6 +798,10 @@ for _d, _us in (
 
 K_ = 'pmutt/constants.py'
 MUTANTS = [
+    {'name': 'the caller\'s array is scaled in place', 'expect': ('EFFECT.argument', 'convert_unit'),
+     'edits': [(K_, "        result = num * unit_dict[final] / unit_dict[initial]", "        result = num\n        result *= unit_dict[final] / unit_dict[initial]")]},
+    {'name': 'zero is returned before the units are looked at', 'expect': ('', 'convert_unit'),
+     'edits': [(K_, "    if initial_type != final_type:", "    if num is not None and np.all(num == 0.):\n        return num\n    if initial_type != final_type:")]},
     {'name': 'division and multiplication swapped in the linear conversion', 'expect': ('', 'convert_unit'),
      'edits': [(K_, "        result = num * unit_dict[final] / unit_dict[initial]", "        result = num * unit_dict[initial] / unit_dict[final]")]},
     {'name': 'Fahrenheit to Kelvin without the offset', 'expect': ('', 'convert_unit'),
